@@ -214,12 +214,34 @@ Proof.
 Qed.
 
 (* ---- all reachable states ---- *)
-Lemma step_gates s o : (exists a b ch, o = Connect a b ch) \/ sgates (fst (step s o)) = sgates s.
-Proof. destruct o; cbn [step fst]; try (right; reflexivity). left. eauto. Qed.
+Lemma slot_mk_gates k owners g i : slot (mk_gates k owners) g i = None.
+Proof.
+  unfold slot. destruct (lookup (mk_gates k owners) g) as [x|] eqn:L; [|reflexivity].
+  destruct (lookup_mk_gates _ _ _ _ L) as [H0 H1]. destruct i; cbn [get]; assumption.
+Qed.
+
+(* gates created at run time through a spawner have empty slots and leave every other gate alone *)
+Lemma slot_spawn s target size g i : slot (sgates (spawn s target size)) g i = slot (sgates s) g i.
+Proof.
+  unfold spawn. cbn [sgates]. unfold slot at 1. rewrite lookup_app. unfold slot.
+  destruct (lookup (sgates s) g) as [x|]; [reflexivity|].
+  change (slot (mk_gates (N.of_nat (length (sgates s))) (repeat target (N.to_nat size))) g i = None).
+  apply slot_mk_gates.
+Qed.
+
+Lemma Inv_ext gs gs' : (forall g i, slot gs' g i = slot gs g i) -> Inv gs -> Inv gs'.
+Proof.
+  intros E [H1 H2 H3 H4]. split.
+  - intros g i c H. rewrite E in H. destruct (H1 g i c H) as [c' [Hc' HE]]. exists c'. rewrite E. split; assumption.
+  - intros g H. rewrite E in *. apply H2. exact H.
+  - intros g i c H. rewrite E in H. eapply H3; exact H.
+  - intros g c c' Ha Hb. rewrite E in Ha, Hb. eapply H4; eassumption.
+Qed.
 
 Lemma step_inv s o : Inv (sgates s) -> Inv (sgates (fst (step s o))).
 Proof.
-  intros HI. destruct o; cbn [step fst]; try exact HI. apply connect_inv. exact HI.
+  intros HI. destruct o; cbn [step fst]; try exact HI; try (apply connect_inv; exact HI).
+  eapply Inv_ext; [|exact HI]. intros g i. apply slot_spawn.
 Qed.
 
 Lemma exec_cons s o r : fst (exec s (o :: r)) = fst (exec (fst (step s o)) r).
@@ -229,12 +251,6 @@ Lemma exec_inv s ops : Inv (sgates s) -> Inv (sgates (fst (exec s ops))).
 Proof.
   revert s; induction ops as [|o r IH]; intros s HI; [exact HI|].
   rewrite exec_cons. apply IH. apply step_inv. exact HI.
-Qed.
-
-Lemma slot_mk_gates k owners g i : slot (mk_gates k owners) g i = None.
-Proof.
-  unfold slot. destruct (lookup (mk_gates k owners) g) as [x|] eqn:L; [|reflexivity].
-  destruct (lookup_mk_gates _ _ _ _ L) as [H0 H1]. destruct i; cbn [get]; assumption.
 Qed.
 
 Lemma init_inv owners : Inv (sgates (init owners)).
@@ -255,7 +271,8 @@ Lemma exec_mono s ops g i c :
 Proof.
   revert s; induction ops as [|o r IH]; intros s HI H; [exact H|].
   rewrite exec_cons. apply IH; [apply step_inv; exact HI|].
-  destruct o; cbn [step fst]; try exact H. apply connect_mono; assumption.
+  destruct o; cbn [step fst]; try exact H; try (apply connect_mono; assumption).
+  rewrite slot_spawn. exact H.
 Qed.
 
 (* ---- at most two peers ---- *)
